@@ -295,6 +295,56 @@ func (sh *shared) runEnabled(v variant, origin, sdl string, served *ast.Schema, 
 		}
 	}
 
+	// 2b. the same lists WITHOUT includeDeprecated (the default view): by kind they are lists or null
+	// exactly as in the full view, and hold the full view's entries that are not deprecated, in order
+	if typesByName != nil {
+		const defQ = `query Def { __schema { types { kind name fields { name } enumValues { name } } } }`
+		if d := fetch("default_view", defQ, "Def", nil); d != nil {
+			var ms []mismatch
+			if tv := d.Get("__schema").Get("types"); tv != nil && tv.Kind == sjson.Array {
+				for _, t := range tv.Arr {
+					name, _ := jstr(t.Get("name"))
+					full := typesByName[name]
+					if full == nil {
+						continue
+					}
+					// (inputFields is left out: gqlgen's default view of it still lists deprecated input
+					// fields, an older reading of the introspection schema - observed, DESIGN 8.7)
+					for _, lst := range []string{"fields", "enumValues"} {
+						fv, dv := full.Get(lst), t.Get(lst)
+						if fv == nil || dv == nil {
+							continue
+						}
+						if fv.Kind == sjson.Null || dv.Kind == sjson.Null {
+							if fv.Kind != dv.Kind {
+								ms = append(ms, mismatch{Sig: "default-view-list-nullness", Where: name + "." + lst, Expected: "null exactly when the full view is null (" + render(fv) + ")", Observed: render(dv)})
+							}
+							continue
+						}
+						var want []string
+						for _, e := range fv.Arr {
+							if dep := e.Get("isDeprecated"); dep != nil && dep.Kind == sjson.Bool && dep.B {
+								continue
+							}
+							n, _ := jstr(e.Get("name"))
+							want = append(want, n)
+						}
+						var got []string
+						for _, e := range dv.Arr {
+							n, _ := jstr(e.Get("name"))
+							got = append(got, n)
+						}
+						if strings.Join(want, ",") != strings.Join(got, ",") {
+							ms = append(ms, mismatch{Sig: "default-view-not-the-non-deprecated-entries", Where: name + "." + lst, Expected: strings.Join(want, ","), Observed: strings.Join(got, ",")})
+						}
+						seen["default_view_lists"]++
+					}
+				}
+			}
+			report("default_view", ms)
+		}
+	}
+
 	// 3. the repo's own standard query (asks for less; compared for what it asks)
 	if runStd {
 		if d := fetch("standard", introspection.Query, "IntrospectionQuery", nil); d != nil {
@@ -370,7 +420,7 @@ func main() {
 		"a @deprecated without an explicit reason accepts deprecationReason null or the spec default \"No longer supported\"; an explicit reason must be returned exactly",
 		"for kinds where fields/inputFields/interfaces/possibleTypes/enumValues do not apply, null and [] are both accepted; isOneOf null counts as false",
 		"possibleTypes of an interface are the OBJECT types implementing it (GraphQL spec, __Type.possibleTypes)",
-		"the semantics of includeDeprecated:false is not judged (the property speaks about the full description); the superset query passes includeDeprecated:true wherever the served meta-schema accepts it",
+		"the property speaks about the full description: the superset query passes includeDeprecated:true wherever the served meta-schema accepts it; of the default view (no includeDeprecated) only fields and enumValues are judged (same nullness by kind as the full view, exactly its non-deprecated entries in order); the default view of inputFields / args is not judged",
 		"the repo's standard introspection.Query is compared only for what it requests; deprecated arguments/input fields may be hidden from it",
 		"the federation _service field is exercised on the fed2 probe with per-request introspection switching (allowed / disallowed histories, two server instances)",
 		"@defer on fragments of the Query root is used as a hiding shape only (gqlgen answers root-level meta fields in the first payload); all payloads are inspected anyway",
